@@ -308,7 +308,7 @@ ASSUME = ['rule arguments are JSON-representable values of the modelled universe
 
 def main(argv):
     return run_check('C09', [RoundTripStream(), DocStream()], argv, trusted_base=TRUSTED, assumptions=ASSUME,
-                     translated=('policy', 'sqlmodel', 'pin_inquiry', 'pin_sql', 'pin_mongo', 'pin_redis'))
+                     translated=('policy', 'sqlmodel', 'pin_inquiry', 'pin_sql', 'pin_mongo', 'pin_redis', 'pin_rules', 'pin_util'))
 
 
 if __name__ == '__main__':
